@@ -69,6 +69,22 @@ def expr(pool=NAMES, rich=True, allow_dot=False, max_leaves=10, allow_unary=True
         return st.tuples(st.sampled_from(NUMS), a).map(lambda t: ["b", ":", ["num", t[0]], t[1]])
 
     leaf = st.one_of(atom, atom, atom, atom, scaled(atoms(pool, rich))) if allow_literals else atom
+    if rich and "a" in pool and "b" in pool and "c" in pool:
+        # a quoted column whose *name* spells an interaction, next to that interaction: two different terms
+        ab = ["b", ":", ["n", "a"], ["n", "b"]]
+        leaf = st.one_of(
+            *([leaf] * 12),
+            st.sampled_from(
+                [
+                    ["b", "+", ["q", "a:b"], ab],
+                    ["b", "+", ab, ["q", "a:b"]],
+                    ["b", "-", ["b", "*", ["n", "a"], ["n", "b"]], ["q", "a:b"]],
+                    ["b", "-", ["b", "+", ["q", "a:b"], ["n", "c"]], ab],
+                    ["b", "+", ["b", ":", ["q", "a:b"], ["n", "c"]], ["b", ":", ab, ["n", "c"]]],
+                    ["b", "+", ["q", "a:b:c"], ["b", ":", ab, ["n", "c"]]],
+                ]
+            ),
+        )
 
     def extend(children):
         binop = st.tuples(
